@@ -1000,3 +1000,147 @@ Proof.
     + reflexivity.
     + cbn [mk_routing rt_desc] in Hd'. apply (proj2 (enc_decision_plain_iff (cp_of_list certs) _)) in Ea. congruence.
 Qed.
+
+(* ========================================================================= *)
+(* C07                                                                         *)
+From Saml Require Import XmlText XmlTextProofs.
+
+(* the SP's own published metadata is sufficient registration: the request the
+   SP builds is routed to the SP's ACS URL over HTTP-POST, and the encryption
+   decision finds the SP's certificate exactly when one is configured *)
+Theorem sp_metadata_registers sp cert id issue dest cp :
+  exists d e,
+    get_acs_endpoint (sp_metadata sp cert) (sp_request sp id issue dest) = Some (0, 0, d, e) /\
+    ep_location e = sp_acs sp /\ ep_binding e = post_binding /\
+    In d (descriptors (sp_metadata sp cert)) /\
+    (sp_key sp = None -> enc_decision cp (kds d) = Plain) /\
+    (forall k, sp_key sp = Some k -> cert <> "" -> cp cert = CertRsaKey k -> enc_decision cp (kds d) = EncryptTo k).
+Proof.
+  eexists _, _. split; [|split; [|split; [|split; [|split]]]].
+  - unfold get_acs_endpoint, sp_request, sp_metadata. cbn [rq_acs_index rq_acs_url descriptors nonempty].
+    destruct (nonempty (sp_acs sp)) eqn:En.
+    + cbn [find_acs acs find_index]. unfold p_url at 1. cbn [ep_location]. rewrite seqb_refl. reflexivity.
+    + cbn [negb andb find_acs acs find_index]. unfold p_default at 1, is_default. cbn [ep_default andb].
+      unfold p_default at 1, is_default. cbn [ep_default andb].
+      cbn [find_acs acs find_index]. unfold p_browser at 1, browser_binding. cbn [ep_binding].
+      rewrite seqb_refl. reflexivity.
+  - reflexivity.
+  - reflexivity.
+  - left. reflexivity.
+  - intro H. cbn [kds]. rewrite H. reflexivity.
+  - intros k H Hc Hcp. cbn [kds]. rewrite H. rewrite enc_decision_spec.
+    unfold enc_decision_decl, first_enc. cbn. apply nonempty_true_iff in Hc. rewrite Hc. rewrite Hcp. reflexivity.
+Qed.
+
+(* the SP accepts what the IdP emits, and returns the assertion the IdP made *)
+Theorem roundtrip_abstract cfg cp sp rt rq s now addr relay rnd ids action resp rl :
+  0 <= max_issue_delay cfg -> 0 <= max_clock_skew cfg ->
+  rq_issue rq - max_clock_skew cfg <= now ->
+  sp_idp_key sp = signer_key cfg -> sp_idp_entity sp = idp_entity cfg ->
+  ep_location (rt_ep rt) = sp_acs sp -> md_entity (rt_md rt) = sp_entity sp ->
+  (sp_allow_initiated sp = true \/ In (rq_id rq) ids) ->
+  (forall k, enc_decision cp (kds (rt_desc rt)) = EncryptTo k -> sp_key sp = Some k) ->
+  respond cfg cp rt rq s now now addr relay rnd = Ok (action, resp, rl) ->
+  sp_accept sp (max_issue_delay cfg) (max_clock_skew cfg) now ids resp
+  = Ok (fst (make_assertion cfg rt rq s now now addr (rnd_saml rnd))).
+Proof.
+  intros Hd Hs Hiss Hk He Hacs Hent Hid Henc H.
+  pose proof (respond_inv _ _ _ _ _ _ _ _ _ _ _ _ _ H) as R. cbv zeta in R.
+  destruct R as (ael & Hm & Hel & Hresp & Hin & _ & _ & _).
+  pose proof (make_assertion_fields cfg rt rq s now now addr (rnd_saml rnd)) as F. cbv zeta in F.
+  set (a := fst (make_assertion cfg rt rq s now now addr (rnd_saml rnd))) in *.
+  destruct F as (Fid & Fii & Fiss & _ & _ & _ & _ & _ & _ & Firt & Fcnoa & Frec & Fw & Faud & _).
+  assert (Hidb : sp_allow_initiated sp || mem_str (rq_id rq) ids = true).
+  { destruct Hid as [-> | Hi]; [reflexivity|]. apply orb_true_iff. right. apply mem_str_In. exact Hi. }
+  unfold sp_accept. rewrite Hresp. unfold response_of.
+  cbn [rs_body rs_sig rs_destination rs_in_response_to rs_issue_instant rs_issuer rs_status rs_id rs_assertion].
+  rewrite Hacs, seqb_refl. cbn [negb]. rewrite Hidb. cbn [negb].
+  replace (now + max_issue_delay cfg <? now) with false by lia.
+  rewrite He, seqb_refl. cbn [negb]. rewrite seqb_refl. cbn [negb].
+  unfold sig_valid, sign. cbn [sg_signer sg_ref sg_over sg_method fst snd].
+  rewrite Hk, Z.eqb_refl, seqb_refl, respbody_eqb_refl, Hm. cbn [andb negb].
+  assert (Ha : match ael with
+               | APlain a0 _ => Ok a0
+               | AEnc e => match sp_key sp with
+                           | Some k => match sym_decrypt k e with Some (a0, _) => Ok a0 | None => Err 7 end
+                           | None => Err 7
+                           end
+               end = Ok a).
+  { apply make_assertion_el_inv in Hel. destruct Hel as (ctx & _ & [[_ ->] | (id & Hdec & ->)]); [reflexivity|].
+    rewrite (Henc id Hdec). unfold sym_decrypt, encrypt_assertion. cbn [fst en_recipient en_plain].
+    rewrite Z.eqb_refl. reflexivity. }
+  rewrite Ha. cbn [bind].
+  unfold sp_validate_assertion. rewrite Fii.
+  replace (now + max_issue_delay cfg <? now) with false by lia.
+  rewrite Fiss, He, seqb_refl. cbn [negb]. rewrite Firt, Hidb. cbn [negb].
+  rewrite Frec, Hacs, seqb_refl. cbn [negb]. rewrite Fcnoa.
+  replace (now + max_issue_delay cfg + max_clock_skew cfg <? now) with false by lia.
+  unfold cond_window in Fw.
+  destruct (now - max_clock_skew cfg <? rq_issue rq) eqn:Ew; injection Fw as Fnb Fnoa; rewrite Fnb, Fnoa.
+  - replace (now <? rq_issue rq - max_clock_skew cfg) with false by lia.
+    replace (rq_issue rq + max_issue_delay cfg + max_clock_skew cfg <? now) with false by lia.
+    rewrite Faud, Hent. cbn [mem_str]. rewrite seqb_refl. reflexivity.
+  - replace (now <? now - max_clock_skew cfg - max_clock_skew cfg) with false by lia.
+    replace (now + max_issue_delay cfg + max_clock_skew cfg <? now) with false by lia.
+    rewrite Faud, Hent. cbn [mem_str]. rewrite seqb_refl. reflexivity.
+Qed.
+
+(* byte level: every session string survives the serialise -> parse hops *)
+Lemma tr_text_ok s : valid_xml_chars s = true -> tr_text s = Some s.
+Proof. apply xml_text_canonical_roundtrip. Qed.
+Lemma tr_attr_ok s : attr_pos_ok s = true -> tr_attr s = Some s.
+Proof.
+  unfold attr_pos_ok. intro H. apply andb_true_iff in H. destruct H as [Hv Hc].
+  apply negb_true_iff in Hc. apply xml_attr_canonical_roundtrip; assumption.
+Qed.
+Lemma tr_list_ok {A} (f : A -> option A) (ok : A -> bool) (H : forall x, ok x = true -> f x = Some x) l :
+  forallb ok l = true -> tr_list f l = Some l.
+Proof.
+  induction l as [|x r IH]; intro Hl; [reflexivity|].
+  cbn [forallb] in Hl. apply andb_true_iff in Hl. destruct Hl as [Hx Hr].
+  cbn [tr_list]. rewrite (H x Hx), (IH Hr). reflexivity.
+Qed.
+Lemma tr_value_ok v : value_clean v = true -> tr_value v = Some v.
+Proof.
+  unfold value_clean, tr_value. intro H. apply andb_true_iff in H. destruct H as [Ht Hv].
+  rewrite (tr_attr_ok _ Ht), (tr_text_ok _ Hv). destruct v; reflexivity.
+Qed.
+Lemma tr_attribute_ok a : attribute_clean a = true -> tr_attribute a = Some a.
+Proof.
+  unfold attribute_clean, tr_attribute. intro H. rewrite !andb_true_iff in H.
+  destruct H as [[[Hf Hn] Hfm] Hv].
+  rewrite (tr_attr_ok _ Hf), (tr_attr_ok _ Hn), (tr_attr_ok _ Hfm), (tr_list_ok tr_value value_clean tr_value_ok _ Hv).
+  destruct a; reflexivity.
+Qed.
+
+Theorem roundtrip_bytes s :
+  session_clean s = true -> c07_expect s = Some (ss_nameid s, session_attributes empty_svc s).
+Proof.
+  unfold session_clean, c07_expect. intro H. rewrite !andb_true_iff in H. destruct H as [[[Hi Hf] Hn] Ha].
+  rewrite (tr_attr_ok _ Hi), (tr_attr_ok _ Hf), (tr_text_ok _ Hn),
+          (tr_list_ok tr_attribute attribute_clean tr_attribute_ok _ Ha). reflexivity.
+Qed.
+
+Lemma list_eqb_refl' {A} (eq : A -> A -> bool) (H : forall x, eq x x = true) l : list_eqb eq l l = true.
+Proof. apply list_eqb_refl. exact H. Qed.
+
+(* the pipeline monitor holds of the model's own expectation *)
+Theorem c07_spec_of_model s :
+  c07_spec {| c7_sess := s;
+              c7_accepted := match c07_expect s with Some _ => true | None => false end;
+              c7_nameid := match c07_expect s with Some (n, _) => n | None => "" end;
+              c7_attrs := match c07_expect s with Some (_, l) => l | None => [] end |} = true.
+Proof.
+  unfold c07_spec. cbn [c7_sess c7_accepted c7_nameid c7_attrs].
+  destruct (session_clean s) eqn:Hc; [|reflexivity].
+  rewrite (roundtrip_bytes s Hc). cbn [andb]. rewrite seqb_refl, (list_eqb_refl _ attribute_eqb_refl). reflexivity.
+Qed.
+
+Example ex_roundtrip_hostile :
+  c07_expect {| ss_create := 0; ss_index := "i"; ss_nameid := "a<b>&""c'" +++ String (chr 13) (String (chr 10) " ]]> ");
+                ss_nameid_format := ""; ss_subject_id := ""; ss_groups := ["g" +++ String (chr 9) ""];
+                ss_user_name := ""; ss_email := ""; ss_common_name := ""; ss_surname := ""; ss_given_name := "";
+                ss_scoped_aff := ""; ss_eppn := ""; ss_custom := [] |}
+  = Some ("a<b>&""c'" +++ String (chr 13) (String (chr 10) " ]]> "),
+          [uri_attr "eduPersonAffiliation" "urn:oid:1.3.6.1.4.1.5923.1.1.1.1" [xs_val ("g" +++ String (chr 9) "")]]).
+Proof. vm_compute. reflexivity. Qed.
